@@ -1,4 +1,5 @@
 """C05 - pattern rewrites preserve meaning (DESIGN.md 6/C05)."""
+import vlib
 from checks import relobs, findgen, findobs
 
 LEVEL = "model_checking"
@@ -11,16 +12,18 @@ def run(ctx, res):
                 "no-bumpalong, no-prefix-factoring, no-atomic-alternation-rewrites; run through the naive scan), every input and start offset: "
                 "match and all captures must be equal (rule rel.norewrite) and, inside the fragment, equal to RegexSem.Find (rel.spec). Patterns: "
                 "random ASTs (fragment and wide profiles: loop-followed-by-X, shared-prefix alternations, nested atomics, look-arounds incl. "
-                "look-behind, conditionals) and the accel shapes. non-trivial = inputs with a match or a real skip")
+                "look-behind, conditionals), the accel shapes, and the patterns harvested from the repository's own test files (relational only). non-trivial = inputs with a match or a real skip")
     S = 600 + (ctx.seed % 50) * 7
     if ctx.tier == "quick":
         plan = [("frag", ["-n", "1500", "-profile", "fragment", "-variant", "norewrite"]),
                 ("wide", ["-n", "1200", "-profile", "wide", "-variant", "norewrite"]),
-                ("accel", ["-n", "800", "-profile", "accel", "-variant", "norewrite"])]
+                ("accel", ["-n", "800", "-profile", "accel", "-variant", "norewrite"]),
+                ("harvest", ["-profile", "harvest", "-harvest", vlib.REPO, "-variant", "norewrite"])]
     else:
         plan = [("frag%d" % i, ["-n", "4000", "-profile", "fragment", "-variant", "norewrite", "-maxlen", "14"]) for i in range(4)] + \
                [("wide%d" % i, ["-n", "4000", "-profile", "wide", "-variant", "norewrite", "-maxlen", "14"]) for i in range(4)] + \
-               [("accel%d" % i, ["-n", "3000", "-profile", "accel", "-variant", "norewrite"]) for i in range(2)]
+               [("accel%d" % i, ["-n", "3000", "-profile", "accel", "-variant", "norewrite"]) for i in range(2)] + \
+               [("harvest", ["-profile", "harvest", "-harvest", vlib.REPO, "-variant", "norewrite", "-rtl", "both"])]
     for k, (label, args) in enumerate(plan):
         relobs.obs_rel(ctx, res, args + ["-stream", str(S + k)], label, RULES)
     # F leg on the families whose shapes the rewrites look at (loops followed by X inside iterated bodies, atomic groups,
@@ -32,8 +35,13 @@ def run(ctx, res):
 
 
 def replay(ctx, res, v):
-    relobs.replay_rel(ctx, res, v, RULES)
+    if v.get("rule") == "find.mismatch":
+        findobs.replay_find(ctx, res, v)
+    else:
+        relobs.replay_rel(ctx, res, v, RULES)
 
 
 def attribute(ctx, viols, gate):
-    return relobs.attribute_rel(ctx, viols, gate, RULES)
+    rel = [v for v in viols if str(v.get("rule", "")).startswith("rel.")]
+    fnd = [v for v in viols if v.get("rule") == "find.mismatch"]
+    return (relobs.attribute_rel(ctx, rel, gate, RULES) if rel else []) + (findobs.attribute_find(ctx, fnd, gate) if fnd else [])
